@@ -38,7 +38,9 @@ PY312 = {"PYENV_VERSION": "3.12.1"}
 
 # (pairs, shards): the shard count is part of the input definition (seed of shard k = seed*1000+k),
 # so it is fixed per tier and independent of the machine
-TIERS = {"quick": (3200, 8), "thorough": (40000, 16)}
+TIERS = {"quick": (3200, 8, 0), "thorough": (40000, 16, 0),
+         # generation of the known-findings list only (never a check tier): other streams of the same seeds
+         "deep": (200000, 80, 100)}
 MY_LEAN_FILES = ["BB/Generated/NumTables.lean", "BB/Lemmas/PowMod.lean", "BB/Model/NumEval.lean",
                  "BB/Audit/C18.lean", "BB/Driver/OpsPy.lean"]
 
@@ -115,7 +117,7 @@ def counterexample(claim):
         return None
     if "reduce" in claim:
         Q = claim["reduce"]
-        for e in range(0, min(4 * Q + 64, 2_000_000)):
+        for e in range(2, min(4 * Q + 64, 2_000_000)):       # the code asserts 1 < exp
             if pow(b, e, m) != pow(b, e % Q, m):
                 return {"base": b, "exponent": e, "modulus": m, "reduced_exponent": e % Q,
                         "table_says": pow(b, e % Q, m), "true_value": pow(b, e, m)}
@@ -129,9 +131,13 @@ def counterexample(claim):
             return None
         first = r if r >= 2 else r + K * (-(-(2 - r) // K))
         es = [first + j * K for j in range(4)]
+    symbolic = str(claim.get("where", "")).startswith("exp_mod_special_cases")
     for e in es:
+        if symbolic and e < 6:
+            continue            # the table is only consulted for a symbolic exponent: probe with (e-4) + 2**2
         if pow(b, e, m) != v:
-            return {"base": b, "exponent": e, "modulus": m, "table_says": v, "true_value": pow(b, e, m)}
+            return {"base": b, "exponent": e, "modulus": m, "table_says": v, "true_value": pow(b, e, m),
+                    "symbolic_exponent": symbolic}
     return None
 
 
@@ -174,7 +180,10 @@ def check_tables(rep):
             if cex is not None:
                 detail["counterexample"] = cex
                 detail["case"] = f"({cex['base']} ** {cex['exponent']}) % {cex['modulus']}"
-                detail["impl_returns"] = probe(f"make_exp({cex['base']}, {cex['exponent']}) % {cex['modulus']}")
+                expo = (f"({cex['exponent'] - 4} + make_exp(2, 2))" if cex.get("symbolic_exponent")
+                        else str(cex["exponent"]))
+                detail["impl_expression"] = f"make_exp({cex['base']}, {expo}) % {cex['modulus']}"
+                detail["impl_returns"] = probe(detail["impl_expression"])
             rep.violation("proof-obligation-failed", detail, found_input=cex is not None)
         rep.cov["discharged"] = len(names) - len(failed)
         return False, summary
@@ -199,7 +208,7 @@ def check_tables(rep):
             for mm in core.FORBIDDEN.finditer(body):
                 bad.append(f"forbidden token in {rel}: {mm.group(0).strip()}")
     rep.cov["discharged"] = discharged
-    rep.cov["theorems"] = {"count": len(names), "first": names[:12], "axioms_used": sorted(
+    rep.cov["theorems"] = {"count": len(names), "names": names, "axioms_used": sorted(
         set().union(*[res.get("BB.NumTables." + n, set()) for n in names]) if names else [])}
     if bad:
         rep.violation("proof-obligation-failed", {"theorems": bad[:40]}, found_input=False)
@@ -210,13 +219,13 @@ def check_tables(rep):
 # ------------------------------------------------------------------ part 2: validation
 
 def run_shards(tier, seed, tag="run"):
-    pairs, shards = TIERS.get(tier, TIERS["quick"])
+    pairs, shards, offset = TIERS.get(tier, TIERS["quick"])
     os.makedirs(WORK, exist_ok=True)
     per = (pairs + shards - 1) // shards
     jobs = []
     for k in range(shards):
         base = os.path.join(WORK, f"{tag}-{tier}-{seed}-{k}")
-        cmd = [python312(), HARNESS, "--seed", str(seed * 1000 + k), "--pairs", str(per),
+        cmd = [python312(), HARNESS, "--seed", str(seed * 1000 + offset + k), "--pairs", str(per),
                "--out", base + ".cases", "--keys", base + ".json", "--trace", "all"]
         jobs.append((cmd, base))
     running, done = [], []
@@ -262,6 +271,7 @@ def judge(bases):
         merge_stats(stats, side["stats"])
         out = core.run_driver(lines)
         kt, ck, cl = side["key_table"], side["case_key"], side["case_line"]
+        ctop = side.get("case_top_line") or [0] * len(ck)
         if not (len(ck) == len(lines) == len(out)):
             raise RuntimeError(f"sidecar / cases / driver length mismatch for {base}")
         total += len(lines)
@@ -284,12 +294,38 @@ def judge(bases):
                 distinct_judged.add(l)
                 k = kt[ck[i]] if 0 <= ck[i] < len(kt) else {"op": l.split(" ")[1], "function": "<untraced>",
                                                            "line_text": "", "shape": ["?", "?"]}
-                bads.append((k, l, o, cl[i]))
+                bads.append((k, l, o, (cl[i], ctop[i])))
             else:
                 protocol_errors.append({"case": l, "driver": o})
     return {"stats": stats, "verdicts": verdicts, "bads": bads, "pairs": len(distinct_pairs),
             "judged": len(distinct_judged), "total": total, "samples": samples,
             "protocol_errors": protocol_errors}
+
+
+SELFTEST = [
+    ("numcheck add - | + -1 ^ 2 5 ; 3 ; + 2 ^ 2 5", "ok"),
+    ("numcheck add - | + -1 ^ 2 5 ; 3 ; + 3 ^ 2 5", "bad:34:35"),
+    ("numcheck mod 30 | ^ 2 4 ; 30 ; 15", "bad:16:15"),
+    ("numcheck mod 30 | ^ 2 4 ; 30 ; 16", "ok"),
+    ("numcheck lt - | + -1 ^ 2 2 ; 6 ; False", "bad:True:False"),
+    ("numcheck eq - | 10 ; / + -2 ^ 2 5 3 ; False", "bad:True:False"),
+    ("numcheck floordiv - | * 6 ^ 3 4 ; -3 ; * -2 ^ 3 4", "ok"),
+    ("numcheck sub - | ^ 2 5 ; ^ 2 7 ; * 3 ^ 2 -2", "bad:-96:noint"),
+    ("numcheck mul - | / + 1 ^ 3 2 5 ; 4 ; 8", "ok"),
+    ("numcheck mul - | / + 1 ^ 3 2 4 ; 4 ; 8", "skip:operand-inexact"),
+    ("numcheck mul - | ^ 2 5 ; 3 ; !NotImplementedError", "skip:exception"),
+    ("numcheck add - | ^ 2 ^ 2 40 ; 3 ; 1", "skip:toobig"),
+]
+
+
+def driver_selftest(rep):
+    """the judge must be able to say `bad`: fixed cases with known verdicts (non-vacuity of the oracle)"""
+    out = core.run_driver([c for c, _ in SELFTEST], jobs=1)
+    wrong = [{"case": c, "expected": w, "driver": o} for (c, w), o in zip(SELFTEST, out) if o != w]
+    if wrong:
+        rep.violation("driver-selftest", {"mismatches": wrong}, found_input=False)
+    rep.cov["driver_selftest_cases"] = len(SELFTEST)
+    return not wrong
 
 
 def load_known_c18():
@@ -313,6 +349,7 @@ def check(rep, tier, seed, replay):
         "operands above 6000 bits or with an exponent above 2000 are not generated; values above 400000 bits are skipped by the model",
     ]
     ok_tables, summary = check_tables(rep)
+    driver_selftest(rep)
 
     if replay:
         rp = json.load(open(replay))
@@ -345,11 +382,11 @@ def check(rep, tier, seed, replay):
         else:
             new_keys.setdefault(ks, []).append((k, line, ans, ln))
     for ks, items in new_keys.items():
-        k, line, ans, ln = items[0]
+        k, line, ans, (ln, top_ln) = items[0]
         _, want, got = (ans.split(":", 2) + ["", ""])[:3]
         rep.violation("oracle", {"case": line, "lean_expected": want, "impl_value": got,
                                  "site": {"function": k["function"], "line_text": k["line_text"], "num_py_line": ln,
-                                          "operator": k["op"], "operand_shape": k["shape"]},
+                                          "operator_method_returned_at_line": top_ln, "operator": k["op"], "operand_shape": k["shape"]},
                                  "key": ks, "same_key_cases": len(items),
                                  "what": "tm/num.py returned a value whose integer meaning differs from the operation "
                                          "on the operands' integer meanings (Lean `eval`)"})
@@ -412,7 +449,7 @@ def categorize(k):
     return "arithmetic: + - * result with the wrong integer value"
 
 
-def regenerate_known(seeds=range(10), tiers=("quick", "thorough")):
+def regenerate_known(seeds=range(10), tiers=("quick", "thorough", "deep")):
     """IMPLEMENTATION-TIME ONLY (never called by check): multi-seed run on the current tree, every
     distinct failing return-site key with one concrete witness -> known_findings_c18.json"""
     found = collections.OrderedDict()
@@ -429,7 +466,7 @@ def regenerate_known(seeds=range(10), tiers=("quick", "thorough")):
                 if ks not in found:
                     new += 1
                     found[ks] = {"key": ks, "op": k["op"], "function": k["function"], "line_text": k["line_text"],
-                                 "shape": k["shape"], "num_py_line_at_generation": ln, "category": categorize(k),
+                                 "shape": k["shape"], "num_py_line_at_generation": ln[0], "category": categorize(k),
                                  "witness": line, "witness_verdict": ans, "first_seen": f"{tier}/seed{seed}"}
             per_seed_new.append((tier, seed, j["total"], len(j["bads"]), new))
             core.log(f"[gen] {tier} seed {seed}: {j['total']} cases, {len(j['bads'])} bad, {new} new keys, total {len(found)}")
@@ -441,7 +478,7 @@ def regenerate_known(seeds=range(10), tiers=("quick", "thorough")):
         f["hits_in_generation_run"] = counts[ks]
     doc = {
         "_comment": "C18 known findings: return sites of tm/num.py that returned a wrong value in the generation run "
-                    "(seeds 0..9, quick and thorough tiers, after the F7/F8 fix commits). Key = operator | function | "
+                    "(seeds 0..9: the quick and thorough check tiers plus a 200000-pair generation-only run per seed, after the F7/F8 fix commits). Key = operator | function | "
                     "source line text | top-level operand types. Generated ONCE by vlib/c18.py regenerate_known at "
                     "implementation time; never written at check time. A wrong value from a site/shape not listed "
                     "here is a VIOLATION.",
@@ -455,7 +492,7 @@ def regenerate_known(seeds=range(10), tiers=("quick", "thorough")):
 
 if __name__ == "__main__":
     if len(sys.argv) > 1 and sys.argv[1] == "--regenerate-known-findings":
-        tiers = tuple(sys.argv[2].split(",")) if len(sys.argv) > 2 else ("quick", "thorough")
+        tiers = tuple(sys.argv[2].split(",")) if len(sys.argv) > 2 else ("quick", "thorough", "deep")
         d = regenerate_known(tiers=tiers)
         print(len(d["findings"]), "keys")
     else:
